@@ -590,3 +590,279 @@ def r17_8_variable_precision_predicates(ctx: Ctx) -> RuleResult:
                 else:
                     rr.ok({"pattern": text, "requires zero": sorted(need)})
     return rr
+
+
+# ---------------------------------------------------------------------------------------------------------------------------
+# R17.9  standard pattern letters select the documented ISO shapes
+
+STANDARD_LETTERS: dict[tuple[str, str], list[Any]] = {
+    # (parser class, letter) -> token shape of the pattern the letter must select (Noda Time standard pattern documentation)
+    ("_LocalDateTimePatternParser", "s"): DATE + ["T"] + HMS,
+    ("_LocalDateTimePatternParser", "S"): DATE + ["T"] + HMS + F9,
+    ("_LocalDateTimePatternParser", "o"): DATE + ["T"] + HMS + [".", ("f", 7)],
+    ("_LocalDateTimePatternParser", "O"): DATE + ["T"] + HMS + [".", ("f", 7)],
+    ("_LocalDateTimePatternParser", "R"): DATE + ["T"] + HMS + [".", ("f", 9)],
+    ("_LocalTimePatternParser", "o"): HMS + F9,
+    ("_LocalTimePatternParser", "O"): HMS + f9,
+    ("_LocalDatePatternParser", "R"): DATE,
+}
+
+
+class _Undecided(Exception):
+    pass
+
+
+def _ev_small(e: ast.expr, env: dict[str, Any]) -> Any:
+    """Value of a test over string constants: names from env, constants, len(), tuples/lists/sets, == != in not-in < <= > >=,
+    and / or / not.  Raises _Undecided for anything else."""
+    if isinstance(e, ast.Constant):
+        return e.value
+    if isinstance(e, ast.Name):
+        if e.id in env:
+            return env[e.id]
+        raise _Undecided(unparse(e))
+    if isinstance(e, (ast.Tuple, ast.List, ast.Set)):
+        return [_ev_small(x, env) for x in e.elts]
+    if isinstance(e, ast.Call) and isinstance(e.func, ast.Name) and e.func.id == "len" and len(e.args) == 1 and not e.keywords:
+        return len(_ev_small(e.args[0], env))
+    if isinstance(e, ast.UnaryOp) and isinstance(e.op, ast.Not):
+        return not _ev_small(e.operand, env)
+    if isinstance(e, ast.BoolOp):
+        if isinstance(e.op, ast.And):
+            return all(_ev_small(v, env) for v in e.values)
+        return any(_ev_small(v, env) for v in e.values)
+    if isinstance(e, ast.Compare):
+        left = _ev_small(e.left, env)
+        for op, c in zip(e.ops, e.comparators):
+            right = _ev_small(c, env)
+            if isinstance(op, ast.Eq):
+                ok = left == right
+            elif isinstance(op, ast.NotEq):
+                ok = left != right
+            elif isinstance(op, ast.In):
+                ok = left in right
+            elif isinstance(op, ast.NotIn):
+                ok = left not in right
+            elif isinstance(op, ast.Lt):
+                ok = left < right
+            elif isinstance(op, ast.LtE):
+                ok = left <= right
+            elif isinstance(op, ast.Gt):
+                ok = left > right
+            elif isinstance(op, ast.GtE):
+                ok = left >= right
+            else:
+                raise _Undecided(unparse(e))
+            if not ok:
+                return False
+            left = right
+        return True
+    raise _Undecided(unparse(e))
+
+
+def _pattern_matches(p: ast.pattern, v: Any, env: dict[str, Any]) -> bool:
+    if isinstance(p, ast.MatchValue):
+        return _ev_small(p.value, env) == v
+    if isinstance(p, ast.MatchOr):
+        return any(_pattern_matches(q, v, env) for q in p.patterns)
+    if isinstance(p, ast.MatchAs) and p.pattern is None:
+        return True
+    raise _Undecided(ast.unparse(p))
+
+
+def _selected_return(stmts: list[ast.stmt], env: dict[str, Any]) -> ast.stmt | None:
+    """The Return / Raise statement reached from `stmts` when the tests over env are decided; None when control falls through."""
+    for s in stmts:
+        if isinstance(s, (ast.Return, ast.Raise)):
+            return s
+        if isinstance(s, ast.If):
+            r = _selected_return(s.body if _ev_small(s.test, env) else s.orelse, env)
+            if r is not None:
+                return r
+        elif isinstance(s, ast.Match):
+            v = _ev_small(s.subject, env)
+            for case in s.cases:
+                if _pattern_matches(case.pattern, v, env) and (case.guard is None or _ev_small(case.guard, env)):
+                    r = _selected_return(case.body, env)
+                    if r is not None:
+                        return r
+                    break
+        elif isinstance(s, (ast.FunctionDef, ast.Expr, ast.Pass, ast.AnnAssign, ast.Assign, ast.Import, ast.ImportFrom, ast.Assert)):
+            if isinstance(s, (ast.Assign, ast.AnnAssign)):
+                tg = s.targets[0] if isinstance(s, ast.Assign) else s.target
+                if isinstance(tg, ast.Name) and s.value is not None:
+                    try:
+                        env = {**env, tg.id: _ev_small(s.value, env)}
+                    except _Undecided:
+                        env = {k: v for k, v in env.items() if k != tg.id}
+            continue
+        else:
+            raise _Undecided(type(s).__name__)
+    return None
+
+
+@rule("C17")
+def r17_9_standard_letters(ctx: Ctx) -> RuleResult:
+    """A one-letter standard pattern ('s', 'S', 'o', 'O', 'R' ...) is the documented way to ask for an ISO shape: the letter must
+    select the implementation whose pattern text has that shape ('s' sortable without fraction, 'S' with optional fraction ...).
+    Decided by following parse_pattern with the pattern text set to the letter (if-chains and match statements) to the
+    returned implementation property, and tokenising its pattern text."""
+    rr = RuleResult("R17.9", "one-letter standard patterns select the implementation whose pattern text has the documented ISO shape", min_instances=8)
+    M = ctx.M
+    for (cname, letter), want in STANDARD_LETTERS.items():
+        rr.inst()
+        c = M.cls(cname, required=False)
+        f = M.find_method(c, "parse_pattern") if c is not None else None
+        if f is None:
+            raise AnalysisError(f"{cname}.parse_pattern not found")
+        par = [a.arg for a in f.node.args.args if a.arg not in ("self", "cls")][0]
+        try:
+            r = _selected_return(f.node.body, {par: letter})
+        except _Undecided as e:
+            raise AnalysisError(f"{f.qual}: cannot follow the dispatch for {letter!r}: {e}") from None
+        if not isinstance(r, ast.Return) or r.value is None:
+            rr.fail(f.qual, f"standard pattern {letter!r} does not return a pattern", ctx.loc(f, r) if r is not None else f.loc)
+            continue
+        e = r.value
+        text = None
+        if isinstance(e, ast.Attribute):
+            root = e
+            while isinstance(root, ast.Attribute):
+                root = root.value
+            if isinstance(root, ast.Name):
+                text, _where, _how = _pattern_text_of(ctx, f"{root.id}.{e.attr}")
+        if text is None:
+            rr.fail(f.qual, f"standard pattern {letter!r} returns `{unparse(e)[:80]}`, whose invariant pattern text was not found (not decided)", ctx.loc(f, r))
+            continue
+        got = _merge(_literal_T(ctx, tokenize(text)))
+        if got == want:
+            rr.ok({"parser": cname, "letter": letter, "selects": unparse(e).split(".")[-1], "text": text})
+        else:
+            rr.fail(f.qual, f"standard pattern {letter!r} selects `{unparse(e).split('.')[-1]}` with text {text!r}, which is not the documented shape for that letter", ctx.loc(f, r))
+    return rr
+
+
+# ---------------------------------------------------------------------------------------------------------------------------
+# R17.10  a special-cased text replaces the delegate's output, it does not precede it
+
+EMITTERS = {"append", "append_format", "append_left_pad", "append_right_pad"}
+
+
+def _emission_paths(stmts: list[ast.stmt], count: int, out: list[tuple[int, ast.stmt | None]]) -> int | None:
+    """Enumerate paths through If-only statement lists; records (emissions on the path, final statement) for each finished path.
+    Returns the running count when control falls off the end, None when every path returned."""
+    def emits(n: ast.AST) -> int:
+        return sum(1 for x in ast.walk(n) if isinstance(x, ast.Call) and isinstance(x.func, ast.Attribute) and x.func.attr in EMITTERS)
+
+    for i, s in enumerate(stmts):
+        if isinstance(s, ast.Return):
+            out.append((count + (emits(s.value) if s.value is not None else 0), s))
+            return None
+        if isinstance(s, ast.Raise):
+            return None
+        if isinstance(s, ast.If):
+            rest = stmts[i + 1:]
+            a = _emission_paths(s.body + rest, count + emits(s.test), out)
+            b = _emission_paths(s.orelse + rest, count + emits(s.test), out)
+            if a is not None:
+                out.append((a, None))
+            if b is not None:
+                out.append((b, None))
+            return None
+        if isinstance(s, (ast.Expr, ast.Assign, ast.AnnAssign, ast.AugAssign, ast.Pass, ast.Assert)):
+            count += emits(s)
+            continue
+        raise _Undecided(type(s).__name__)
+    return count
+
+
+@rule("C17")
+def r17_10_special_case_replaces(ctx: Ctx) -> RuleResult:
+    """Wrapper patterns that special-case one value (UTC written as "Z") have a `format` with a branch returning a string
+    constant and another delegating to the wrapped pattern.  Their `append_format` must agree: on every path exactly one text
+    is emitted (the constant or the delegate's), otherwise the text is "Z+00", which no ISO-8601 reader accepts; and their
+    parse side must accept the same constant."""
+    rr = RuleResult("R17.10", "wrapper patterns with a special-cased constant text (\"Z\") emit exactly one text per path in append_format and accept the same constant when parsing", min_instances=1)
+    M = ctx.M
+    for c in sorted((x for lst in M.classes.values() for x in lst), key=lambda x: x.qual):
+        if "/text/" not in "/" + c.mod.rel:
+            continue
+        fm = c.methods.get("format")
+        af = c.methods.get("append_format")
+        if fm is None or af is None:
+            continue
+        rets = [n for n in own_nodes(fm.node) if isinstance(n, ast.Return) and n.value is not None]
+        consts = [n.value.value for n in rets if isinstance(n.value, ast.Constant) and isinstance(n.value.value, str)]
+        consts += [x.value for n in rets if isinstance(n.value, ast.IfExp) for x in (n.value.body, n.value.orelse) if isinstance(x, ast.Constant) and isinstance(x.value, str)]
+        deleg = [n for n in rets for x in ast.walk(n.value) if isinstance(x, ast.Call) and isinstance(x.func, ast.Attribute) and x.func.attr == "format"]
+        if not consts or not deleg:
+            continue
+        rr.inst()
+        paths: list[tuple[int, ast.stmt | None]] = []
+        try:
+            tail = _emission_paths(af.node.body, 0, paths)
+        except _Undecided as e:
+            rr.fail(af.qual, f"append_format of a special-casing wrapper pattern has a {e} statement (paths not enumerated, not decided)", af.loc)
+            continue
+        if tail is not None:
+            paths.append((tail, None))
+        bad = [(k, s) for k, s in paths if k != 1]
+        if bad:
+            k, s = bad[0]
+            rr.fail(af.qual, f"a path through append_format emits {k} texts (expected exactly one: the special-case constant {consts[0]!r} replaces the wrapped pattern's output, it does not precede it)", ctx.loc(af, s) if s is not None else af.loc)
+            continue
+        # the constant written is the constant of format(), and the parse side accepts it
+        written = {x.value for x in ast.walk(af.node) if isinstance(x, ast.Constant) and isinstance(x.value, str)} & set(consts)
+        if not written:
+            rr.fail(af.qual, f"append_format never writes the special-case text {consts[0]!r} that format() returns", af.loc)
+            continue
+        missing = []
+        for nm in ("parse", "parse_partial"):
+            g = c.methods.get(nm)
+            if g is None:
+                continue
+            accepted = {x.value for n in own_nodes(g.node) if isinstance(n, ast.If) for x in ast.walk(n.test) if isinstance(x, ast.Constant) and isinstance(x.value, str)}
+            if not (accepted & set(consts)):
+                missing.append(nm)
+        if missing:
+            rr.fail(c.qual, f"{', '.join(missing)} does not accept the special-case text {consts[0]!r} that format() writes", f"{c.mod.rel}:{c.node.lineno}")
+        else:
+            rr.ok({"class": c.qual, "constant": consts[0], "paths": len(paths)})
+    return rr
+
+
+# ---------------------------------------------------------------------------------------------------------------------------
+# R17.11  the parsed offset range is exactly the Offset range
+
+@rule("C17")
+def r17_11_offset_bucket_range(ctx: Ctx) -> RuleResult:
+    """`+18:00` / `-18:00` are valid ISO offsets and the extremes of Offset; the out-of-range guard of the parse bucket must
+    reject exactly |seconds| > 18 h.  The guard's test is evaluated by the abstract interpreter at the four boundary values."""
+    from ..absint import Iv, State
+    from ..oblig import interp
+
+    rr = RuleResult("R17.11", "the offset parse bucket's out-of-range guard rejects exactly the totals outside [-18:00, +18:00] (evaluated at -64801, -64800, 64800, 64801 seconds)", min_instances=4)
+    M = ctx.M
+    f = M.func("_OffsetParseBucket.calculate_value")
+    guards = []
+    for n in own_nodes(f.node):
+        if isinstance(n, ast.If) and any(isinstance(x, ast.Return) and x.value is not None and "invalid" in unparse(x.value) for x in n.body):
+            guards.append(n)
+    if len(guards) != 1:
+        raise AnalysisError(f"{f.qual}: expected one out-of-range guard, found {len(guards)}")
+    g = guards[0]
+    locals_ = {t.id for n in own_nodes(f.node) if isinstance(n, (ast.Assign, ast.AnnAssign)) for t in ([n.target] if isinstance(n, ast.AnnAssign) else n.targets) if isinstance(t, ast.Name)}
+    names = {x.id for x in ast.walk(g.test) if isinstance(x, ast.Name)} & locals_
+    if len(names) != 1:
+        raise AnalysisError(f"{f.qual}: the guard tests {sorted(names)} (expected the one local holding the total seconds)")
+    var = names.pop()
+    for s, want in ((-64801, 1), (-64800, 0), (0, 0), (64800, 0), (64801, 1)):
+        rr.inst()
+        v = interp(ctx).ev(g.test, State({var: Iv(s, s)}), f, 0)
+        if isinstance(v, Iv) and v.lo == v.hi == want:
+            rr.ok({"seconds": s, "rejected": bool(want)})
+        elif isinstance(v, Iv) and v.lo == v.hi:
+            rr.fail(f.qual, f"a parsed total of {s} seconds is {'rejected' if v.lo else 'accepted'}; the Offset range is [-64800, 64800] inclusive", ctx.loc(f, g))
+        else:
+            rr.fail(f.qual, f"the out-of-range guard `{unparse(g.test)[:80]}` could not be evaluated at {s} seconds (not decided)", ctx.loc(f, g))
+    return rr
